@@ -2,7 +2,7 @@
    op list together with what the implementation returned; [check_case] runs the float
    instance of the model on the same ops and reports the first op whose observable differs
    (bit-exact, NaN canonicalised), then compares the byte images of the final states. *)
-From Coq Require Import Floats String Uint63.
+From Coq Require Import Floats String Uint63 SpecFloat.
 From TA Require Import Base Model Generic FloatInst.
 Open Scope N_scope.
 
@@ -91,11 +91,41 @@ Fixpoint first_diff (k : N) (a b : list fobs) : N :=
   | _, _ => k
   end.
 
+(* integer value of a shipped chunk literal (< 2^32) *)
+Definition f2n (v : float) : N :=
+  match Prim2SF v with
+  | S754_finite false m e => Z.to_N (Z.shiftl (Zpos m) e)
+  | _ => 0 end.
+
+Fixpoint take_le (k : nat) (l : list N) : option (N * list N) :=
+  match k with
+  | O => Some (0, l)
+  | S k => match l with
+           | b :: r => match take_le k r with Some (v, r') => Some (b + 256 * v, r') | None => None end
+           | [] => None end
+  end.
+
+(* any NaN bit pattern: exponent all ones, mantissa non-zero (sign and payload are not modelled) *)
+Definition is_nan_word (w : N) : bool :=
+  (N.land (N.shiftr w 52) 2047 =? 2047) && negb (N.land w 4503599627370495 =? 0).
+
+(* the implementation's bytes against the model's items, item by item *)
+Fixpoint match_items (items : list (@item float)) (bytes : list N) : bool :=
+  match items with
+  | [] => match bytes with [] => true | _ => false end
+  | U8 n :: r => match bytes with b :: bs => (b =? n) && match_items r bs | [] => false end
+  | U64 n :: r => match take_le 8 bytes with Some (v, bs) => (v =? n) && match_items r bs | None => false end
+  | F64 f :: r => match take_le 8 bytes with
+                  | Some (v, bs) => (if PrimFloat.is_nan f then is_nan_word v else v =? float_bits f) && match_items r bs
+                  | None => false end
+  end.
+
 Definition img_ok (st : @store float) (e : nat * list float * N) : bool :=
   let '(slot, v, n) := e in
   match sget st slot with
   | None => false
-  | Some s => feq_list v (chunks s) && (n =? ser_len s)
+  | Some s => (n =? ser_len s) &&
+              match_items (ser s) (firstn (N.to_nat n) (flat_map (fun c => le_bytes 4 (f2n c)) v))
   end.
 
 (* 0 = agreement; k = first differing op (from 1); 1000000 + j = state image j differs *)
